@@ -23,7 +23,15 @@ VERIF = "/verif"
 REPO = os.environ.get("VERIF_REPO", "/repo")
 COQ = os.path.join(VERIF, "coq")
 WORK = os.path.join(VERIF, "work")
-NCPU = int(os.environ.get("VERIF_JOBS", "16"))
+def _default_jobs():
+    # work/jobs.txt (git-ignored, absent in a fresh checkout) lets the lead throttle all running checks while many agents share the box
+    try:
+        return open(os.path.join(WORK, "jobs.txt")).read().strip() or "16"
+    except OSError:
+        return "16"
+
+
+NCPU = int(os.environ.get("VERIF_JOBS") or _default_jobs())
 
 FORBIDDEN = re.compile(
     r"\b(Admitted|admit|Axiom|Axioms|Parameter|Parameters|Conjecture|Hypothesis|Variable|Variables|Hypotheses)\b"
